@@ -540,7 +540,7 @@ def settings_only_prefix(ops, raised):
     return out
 
 
-def normal_form(ops, raised, all_parsed=None):
+def normal_form(ops, raised, all_parsed=None, _rewritten=False):
     """
     N(H): the sub-history a freshly constructed object needs in order to be in
     the state H claims to leave behind.  Returns (ops', kept_index_map) where
@@ -553,6 +553,37 @@ def normal_form(ops, raised, all_parsed=None):
     for k in range(1, n):
         if ops[k]["op"] == "parse" and ops[k]["commit"] and not raised[k]:
             last = k
+    # "... through parse() or parse_tracts()": if the description-level parse
+    # left the tracts unparsed and the FIRST tract-level operation after it
+    # is a plain parse_tracts() (no config, no overrides), then the same
+    # state must result from asking the description-level parse for
+    # parse_qq=True right away.  Rewrite H accordingly (index-preserving:
+    # the parse_tracts becomes an erasable read) and normalise that.
+    if cls == "PLSSDesc" and all_parsed is not None and not _rewritten:
+        b = last if last is not None else 0
+        if not all_parsed[b] and not raised[b]:
+            first = None
+            for k in range(b + 1, n):
+                if is_pure(ops[k]) or raised[k]:
+                    if raised[k]:
+                        break
+                    continue
+                if _dependent(ops[k]):
+                    break      # its answer depends on whether tracts are parsed
+                if ops[k]["op"] in ("parse_tracts", "config_tracts",
+                                    "tract_parse", "tracts_edit"):
+                    first = k
+                    break
+            if first is not None and ops[first]["op"] == "parse_tracts" \
+                    and not ops[first]["config"] and not ops[first]["kw"]:
+                ops2 = copy.deepcopy(ops)
+                ops2[b]["kw"]["parse_qq"] = True
+                ops2[b]["__rw"] = True     # its return value now differs
+                ops2[first] = {"op": "read", "what": "repr"}
+                ap2 = list(all_parsed)
+                for k in range(b, n):
+                    ap2[k] = True
+                return normal_form(ops2, raised, ap2, _rewritten=True)
     create = copy.deepcopy(ops[0])
     if last is not None:
         if cls == "PLSSDesc":
@@ -736,6 +767,8 @@ def check_plan(plan):
                       and ops[k]["commit"] and not raised[k]]
         for j, k in enumerate(idx):
             if k is None or k == 0 or k not in last_parse[-1:]:
+                continue
+            if nf[j].get("__rw"):
                 continue
             a, b = _ret_only(h["outcomes"][k]), _ret_only(n["outcomes"][j])
             path, oo = compare(a, b, exact=False)
